@@ -646,6 +646,11 @@ def report_violation(prop, v, tier, seed, accept=None):
         if lo is not None:
             got = run_range(job, tier, seed, lo, v["run"] + 1)
             recurred = got is not None
+            if not recurred and target == "crash.hang":
+                # the one kind of failure the machine itself can produce (a stalled worker under load):
+                # a time limit exceeded once, with neither the plan nor the range exceeding it again
+                log("# a worker of %s exceeded its time limit around run %d once; neither the plan nor runs %d..%d did so again when replayed; not reported" % (job.label, v["run"], lo, v["run"]))
+                return None
             if not recurred:
                 # seen once, in a worker, and not again: still a failure of the property's check (a
                 # state-dependent one - uninitialised reads, address reuse); never dropped
